@@ -2,6 +2,7 @@ package main
 
 import (
 	"fmt"
+	"math"
 	"go/token"
 	"sort"
 
@@ -39,6 +40,9 @@ func (pr *Prover) rangeAt(at ssa.Instruction, l Lin, lo, hi int64) bool {
 	f := pr.factsAt(at.Block())
 	if ok, _ := pr.proveIn(&pstate{deep: 1}, at.Block(), f, l.scale(-1).addConst(lo)); !ok {
 		return false
+	}
+	if hi == math.MaxInt64 {
+		return true // no upper bound to establish
 	}
 	ok, _ := pr.proveIn(&pstate{deep: 1}, at.Block(), f, l.addConst(-hi))
 	return ok
